@@ -64,7 +64,7 @@ def analyse(src: Source) -> List[Report]:
     rep.expect_min("R9.1-I1-self-trash", 120)
     rep.expect_min("R9.1-I4-nothing-missing", 500)
     rep.expect_min("R9.2-pool", 35)
-    rep.expect_min("R9.3-linear-create", 10)
+    rep.expect_min("R9.3-linear-create", 5)
     rep.expect_min("R9.3-linear-trash", 1)
     rep.expect_min("R9.4-update-before-create", 1)
     return [rep]
